@@ -159,6 +159,86 @@ theorem frame_decode_consumes_one (cfg : Cfg) (flex : Bool) (corr : Int) (t : Ty
     rw [decode_encode cfg t v hwf hwt rest _ (by omega)]
     simp [discardAll]
 
+
+/-! ### unknown tagged fields are skipped -/
+
+/-- a tagged field as a (newer) broker writes it: tag id, size, payload -/
+def encExtra (e : Nat × Bytes) : Bytes := uvarint e.1 ++ (uvarint e.2.length ++ e.2)
+
+def encExtras : List (Nat × Bytes) → Bytes
+  | [] => []
+  | e :: es => encExtra e ++ encExtras es
+
+theorem tagLookup_none (cfg : Cfg) : ∀ (ids : List Int) (ts : List Ty) (k : Nat) (id : Int),
+    (∀ i ∈ ids, i ≠ id) → tagLookup cfg ids ts k id = none
+  | [], _, _, _, _ => by simp [tagLookup]
+  | _ :: _, [], _, _, _ => by simp [tagLookup]
+  | i :: is, t :: ts, k, id, h => by
+    have h1 : i ≠ id := h i (by simp)
+    have h2 := tagLookup_none cfg is ts (k + 1) id (fun j hj => h j (by simp [hj]))
+    simp [tagLookup, h2, h1]
+
+theorem encExtras_length_ge : ∀ es : List (Nat × Bytes), es.length ≤ (encExtras es).length
+  | [] => by simp [encExtras]
+  | e :: es => by
+    have := encExtras_length_ge es
+    have := uvarint_length_pos e.1
+    simp only [encExtras, encExtra, List.length_append, List.length_cons]
+    omega
+
+/-- the tagged-field loop consumes any number of fields it does not know and leaves the slots untouched -/
+theorem taggedLoop_skips (cfg : Cfg) (lookup : Int → Option (Nat × (Dec → Res Val))) :
+    ∀ (es : List (Nat × Bytes)), (∀ e ∈ es, e.1 < 2 ^ 64 ∧ e.2.length < 2 ^ 31 ∧ lookup (toI64 e.1) = none) →
+    ∀ (slots : List Val) (r : Bytes) (rem : Nat), (encExtras es).length ≤ rem →
+      taggedLoop cfg lookup es.length slots ⟨encExtras es ++ r, rem⟩ = .ok slots ⟨r, rem - (encExtras es).length⟩
+  | [], _, slots, r, rem, _ => by simp [taggedLoop, encExtras]
+  | e :: es, h, slots, r, rem, hr => by
+    obtain ⟨h1, h2, h3⟩ := h e (by simp)
+    have ih := taggedLoop_skips cfg lookup es (fun e' he' => h e' (by simp [he']))
+    simp only [encExtras, encExtra, List.length_append] at hr
+    simp only [List.length_cons, taggedLoop, encExtras, encExtra, List.append_assoc]
+    rw [readUvarint_uvarint e.1 rem _ h1 (by omega)]
+    simp only [Res.bind]
+    rw [readUvarint_uvarint e.2.length _ _ (by omega) (by omega)]
+    simp only [h3]
+    rw [lenOfU_small cfg e.2.length h2, readLen_append cfg _ _ e.2 _ rfl (by omega)]
+    simp only []
+    rw [ih slots r _ (by omega)]
+    simp only [List.length_append]
+    congr 2
+    omega
+
+/-- **skip_unknown_tags.**  A flexible struct whose tag buffer carries any number of tagged fields with ids the
+schema does not declare (as sent by a newer broker) decodes to exactly the value it decodes to without them,
+and consumes all of them. -/
+theorem skip_unknown_tags (cfg : Cfg) (fs : List Ty) (ids : List Int) (ts : List Ty) (vs tvs : List Val)
+    (es : List (Nat × Bytes)) (r : Bytes) (rem : Nat)
+    (hwf : (Ty.struct true fs ids ts).wf = true) (hwt : wt (.struct true fs ids ts) (.struct vs tvs) = true)
+    (hes : ∀ e ∈ es, e.1 < 2 ^ 64 ∧ e.2.length < 2 ^ 31 ∧ ∀ i ∈ ids, i ≠ toI64 e.1)
+    (hn : es.length < 2 ^ 31)
+    (hrem : (encodeFields fs vs).length + ((uvarint es.length).length + (encExtras es).length) ≤ rem) :
+    decode cfg (.struct true fs ids ts) ⟨encodeFields fs vs ++ (uvarint es.length ++ (encExtras es ++ r)), rem⟩
+      = .ok (norm (.struct true fs ids ts) (.struct vs tvs))
+          ⟨r, rem - ((encodeFields fs vs).length + ((uvarint es.length).length + (encExtras es).length))⟩ := by
+  simp only [Ty.wf, Bool.and_eq_true] at hwf
+  obtain ⟨⟨⟨hwfl, hreg⟩, hmark⟩, _⟩ := hwf
+  simp only [wt, Bool.and_eq_true] at hwt
+  simp only [norm, normFields_markers ts tvs hmark hwt.2]
+  simp only [decode, if_true]
+  rw [rt_fields cfg fs (rt_list cfg fs) hwfl hreg vs hwt.1 _ rem (by omega)]
+  simp only [Res.bind]
+  rw [readUvarint_uvarint es.length _ _ (by omega) (by omega)]
+  have hge := encExtras_length_ge es
+  have hl : lenOfU cfg es.length = es.length := lenOfU_small cfg es.length hn
+  have h0 : ¬ ((es.length : Int) < 0) := by omega
+  have h1 : ¬ (cfg.bounded = true ∧ es.length > rem - (encodeFields fs vs).length - (uvarint es.length).length) := by
+    intro h; omega
+  simp only [tagCount, hl, h0, if_false, Int.toNat_natCast, h1]
+  rw [taggedLoop_skips cfg _ es (fun e he => ⟨(hes e he).1, (hes e he).2.1, tagLookup_none cfg ids ts 0 _ (hes e he).2.2⟩) _ r _ (by omega)]
+  simp only []
+  congr 2
+  omega
+
 /-! ### the model's bytes are the reference (Kafka protocol guide) bytes -/
 
 theorem be_eq_unsignedBE (k n : Nat) : be k n = Spec.unsignedBE k n := by
